@@ -40,6 +40,7 @@ def none_arm_blocks(bi, pred):
 
 
 @rule("C11", "R11.1", "subscription delete: the topic forgets the subscription before the manager does and before consumers are told", floor=2)
+@rule("C01", "R11.1", "subscription delete: the topic forgets the subscription before the manager does and before consumers are told", floor=2)
 def r11_1(prog, out):
     R = roles(prog)
     A = prog.anchors
@@ -228,6 +229,7 @@ def r11_4(prog, out):
 
 
 @rule("C11", "R11.5", "create pairs the manager insert with the topic attach on every successful path", floor=1)
+@rule("C01", "R11.5", "create pairs the manager insert with the topic attach on every successful path", floor=1)
 def r11_5(prog, out):
     R = roles(prog)
     A = prog.anchors
